@@ -271,6 +271,8 @@ def main(tier, seed):
     if bad or logs:
         rep.violation('corr:uneval', 'correspondence corr.C13 could not be evaluated for %d cases' % bad,
                       dict(kind='correspondence', name='corr.C13', log=logs[:3]), no_input=True)
+    import r9
+    r9.c13_self_view_assignment(rep, algopy, rng, tier)
     return rep.finish()
 
 
